@@ -134,6 +134,7 @@ def hostMethodSig : String → String → Option Sig
   | "JSON", "stringify" => some (anyN 1)
   | "JSON", "parse" => some { fixed := [.gostr] }
   | "Object", "keys" => some (anyN 1)
+  | "Object", "assign" => some { fixed := [.any], variadic := some .any }
   | _, _ => none
 
 /-- index of `needle` in `hay` (strings.Index), on code points -/
@@ -297,6 +298,21 @@ def callHostMethod (host name : String) (args : List Val) : M Val := do
     -- js_object.go Keys: a NEW array with the keys in lexical order; the object itself (its own key order) is untouched
     let ks := sortKeys ((h.getMap a).items.map (·.1))
     allocArr (ks.map Val.S)
+  | "Object", "assign", (.map t) :: sources => do
+    -- js_object.go Assign: every source's keys in Keys() order (which caches that order in the source), each set on the target
+    -- with Map.Assign (a new key joins the target's explicit order only if the target has one)
+    for src in sources do
+      match src with
+      | .map b => do
+        let h ← getHeap
+        let (ks, mb) := mapKeys (h.getMap b)
+        setHeap (h.setMap b mb)
+        for k in ks do
+          let h ← getHeap
+          setHeap (h.setMap t (mapAssign (h.getMap t) k (mapMember (h.getMap b) k)))
+      | .nil => pure ()
+      | _ => domainErr "Object.assign from a non-object"
+    pure (.map t)
   | _, _, _ => domainErr s!"host method {host}.{name}"
 
 end Pug.Tpl
